@@ -64,3 +64,70 @@ Proof.
            end. }
   vm_compute. repeat split; reflexivity.
 Qed.
+
+(* ---------------------------------------------------------------- generators suspended inside a recursion *)
+(* n(z). n(s(X)) :- n(X).  c(a).   g0 = n(V0) advanced to its 3rd answer (two calls deep), g1 = n(V1) to its 2nd, g2 = n(V2)
+   to its 3rd - all three suspended inside the recursion at the same time; g0 (the oldest) is closed; then the probe
+   g3 = c(V3) is started.  Then: next g3; next g1; next g3; next g2. *)
+Definition xn := of_string "n".
+Definition xc := of_string "c".
+Definition xS (t : term) : term := TFun (of_string "s") [t].
+Definition dscript : list (str * nat * list clause) :=
+  [ (xn, 1, [ ([xA "z"], []); ([xS (TVar 0)], [(xn, [TVar 0])]) ]) ].
+Definition dprep : list op :=
+  [ OAssert true xc [xA "a"]; OLoad true dscript;
+    OStart 0 xn [TVar 0]; ONext 0; ONext 0; ONext 0;
+    OStart 1 xn [TVar 1]; ONext 1; ONext 1;
+    OStart 2 xn [TVar 2]; ONext 2; ONext 0; ONext 2; ONext 2;
+    OClose 0;
+    OStart 3 xc [TVar 3] ].
+Definition de : engine := fst (fst (erun 1 0 80 dprep init_engine [])).
+Definition dh : store := snd (fst (erun 1 0 80 dprep init_engine [])).
+Definition dops : list op := [ONext 3; ONext 1; ONext 3; ONext 2].
+Definition xobs1 (t : term) : obs := otag "ans" [term_obs t].
+
+Ltac start_ok_tac :=
+  let q' := fresh "q" in let c' := fresh "c" in let N := fresh "N" in let H := fresh "H" in
+  let v := fresh "v" in let Hv := fresh "Hv" in
+  intros q' c' N H v Hv; vm_compute in H;
+  do 4 (destruct q' as [|q'];
+          [ first [ discriminate H
+                  | exfalso; apply N; reflexivity
+                  | inversion H; subst c'; clear H; unfold argvar; cbn [cargs]; cbn [map rn existsb occurs] in *;
+                    rewrite ?orb_false_r in *; apply Nat.eqb_eq in Hv; subst v; vm_compute; reflexivity ] | ]);
+  discriminate H.
+
+(* hist_ok unfolded naively duplicates the state at every step; step by step with the computed states instead *)
+Lemma hist_ok_cons n i fuel o r e h e' h' ob :
+  estep fuel n i o e h = (e', h', ob) -> op_ok n i e o -> hist_ok n i fuel r e' h' -> hist_ok n i fuel (o :: r) e h.
+Proof. intros E O H. cbn [hist_ok]. rewrite E. split; assumption. Qed.
+
+Lemma ex_hist_ok_d : hist_ok 1 0 80 dprep init_engine [].
+Proof.
+  unfold dprep.
+  repeat (eapply hist_ok_cons; [vm_compute; reflexivity | first [exact I | cbn [op_ok]; start_ok_tac] | ]).
+  exact I.
+Qed.
+
+Lemma ex_deep :
+  hist_ok 1 0 80 dprep init_engine [] /\ Forall qop dops /\ nowrite 1 0 80 dops de dh
+  /\ pick 3 dops (snd (erun 1 0 80 dops de dh)) = [xans "a"; otag "done" []]
+  /\ pick 1 dops (snd (erun 1 0 80 dops de dh)) = [xobs1 (xS (xS (xA "z")))]
+  /\ pick 2 dops (snd (erun 1 0 80 dops de dh)) = [xobs1 (xS (xS (xS (xA "z"))))]
+  /\ 4 <= length dh
+  /\ pick 3 dops (snd (erun 1 0 80 dops de dh))
+     = snd (erun 1 0 80 (filter (is_slot 3) dops) de (fP (PQ_of 1 0 de 3) dh))
+  /\ pick 1 dops (snd (erun 1 0 80 dops de dh))
+     = snd (erun 1 0 80 (filter (is_slot 1) dops) de (fP (PQ_of 1 0 de 1) dh)).
+Proof.
+  split; [exact ex_hist_ok_d|]. split; [repeat constructor; discriminate|].
+  split.
+  { vm_compute.
+    repeat match goal with
+           | |- _ /\ _ => split
+           | |- Forall _ _ => constructor
+           | |- True => exact I
+           | |- _ = _ => reflexivity
+           end. }
+  vm_compute. repeat split; try reflexivity. repeat constructor.
+Qed.
